@@ -49,6 +49,8 @@ func init() {
 			emit("mux 612f62 010203 1 0 1 7 2 TP ZF A")
 			emit("async 612f62 010203 1 0 1 7 2 TP ZF A")
 			emit("mux 61 - 0 0 0 0 1 AAP R")
+			emit("mux 61 - 0 0 0 0 2 A AP AAZ") // zero-length payload with spare capacity: appends must stay private
+			emit("async 61 - 1 0 0 9 2 AA AP")
 			emit("asyncd 612f62 010203 1 0 1 7 3 TPF ZA")
 			emit("asyncd 61 0102030405060708 0 0 0 0 4 Z N")
 			// ServeAsync in front of a ServeMux (the paho wrapper's arrangement): scripts[0] = the dispatcher, the rest = mux handlers
@@ -91,7 +93,7 @@ func init() {
 						scripts[0] = "PTF"
 					}
 				}
-				emit(fmt.Sprintf("%s %s %s %d %d %d %d %d %s", mode, descBytes([]byte(randTopicString(rng))), descBytes(randBytes(rng, rng.Intn(65))),
+				emit(fmt.Sprintf("%s %s %s %d %d %d %d %d %s", mode, descBytes([]byte(randTopicString(rng))), descBytes(randBytes(rng, []int{0, rng.Intn(65), rng.Intn(65), rng.Intn(65), rng.Intn(65), rng.Intn(65)}[rng.Intn(6)])),
 					rng.Intn(3), rng.Intn(2), rng.Intn(2), rng.Intn(65535), 1+rng.Intn(5), strings.Join(scripts, " ")))
 			}
 		},
@@ -101,7 +103,19 @@ func init() {
 			// give the payload spare capacity so that an in-place append would be visible if shared
 			pl := make([]byte, len(msg.Payload), len(msg.Payload)+8)
 			copy(pl, msg.Payload)
+			for i := len(pl); i < cap(pl); i++ {
+				pl[:cap(pl)][i] = 0xEE // sentinel: the caller's buffer behind the payload
+			}
 			msg.Payload = pl
+			spareIntact := func() bool {
+				full := pl[:cap(pl)]
+				for i := len(pl); i < len(full); i++ {
+					if full[i] != 0xEE {
+						return false
+					}
+				}
+				return true
+			}
 			orig := viewOf(msg)
 			rounds := atoi(f[7])
 			scripts := f[8:]
@@ -175,6 +189,12 @@ func init() {
 				}
 				return r
 			}
+			type keptMsg struct {
+				m    *mqtt.Message
+				view string
+				who  int
+			}
+			var kept []keptMsg // what every handler call left in ITS message; nothing later may change it
 			for round := 0; round < rounds; round++ {
 				roundViews := make([]string, len(scripts))
 				var wg sync.WaitGroup
@@ -198,6 +218,9 @@ func init() {
 							mu.Unlock()
 						}
 						runScript(m, sc)
+						mu.Lock()
+						kept = append(kept, keptMsg{m: m, view: viewOf(m), who: i})
+						mu.Unlock()
 					})
 					wg.Add(1)
 					if mode == "async" {
@@ -220,6 +243,17 @@ func init() {
 			if viewOf(msg) != orig {
 				r.Props = append(r.Props, viol("C20", "caller-message-changed", "caller's message is %s after Serve, was %s", viewOf(msg), orig))
 			}
+			if !spareIntact() {
+				r.Props = append(r.Props, viol("C20", "caller-buffer-written", "a handler's append wrote into the caller's buffer behind the %d-byte payload (scripts %v): the copy shares the caller's backing array", len(pl), scripts))
+			}
+			mu.Lock()
+			for _, k := range kept {
+				if viewOf(k.m) != k.view {
+					r.Props = append(r.Props, viol("C20", "kept-message-changed", "the message handler %d kept was %s when it returned and is %s after the other handlers ran (scripts %v)", k.who, k.view, viewOf(k.m), scripts))
+					break
+				}
+			}
+			mu.Unlock()
 			return r
 		}})
 }
